@@ -37,6 +37,35 @@ CHECKS["C06"] = ("property-based testing (rapid): generated constant-expression 
 CHECKS["C15"] = ("property-based testing (rapid): hostile data and unguarded indices vs trapping interpreters of the emitted code",
          "Generated compute programs biased to the hardened constructs (integer division/remainder by zero and INT_MIN/-1, negation/abs of INT_MIN, float->int of infinite/out-of-range values, reads of uninitialised variables, unguarded dynamic indices from 32-bit boundary values) are compiled with each backend's protective options (SPIR-V defaults; HLSL RestrictIndexing; MSL restrict / read-zero-skip-write, enabled by checks/c15/ENABLE_MSL; GLSL zero-init only) and executed by interpreters that trap on any out-of-object access and report any use of an undefined value; results must equal the WGSL-defined values under the policy. Exploration only.",
          "Trusted: target interpreters' undefined-behaviour rules (verif/internal/spv, verif/internal/ctext); restrict accepts either clamping convention for negative indices.", "DESIGN.md §4 C15")
+
+EXEC_NOTE = "Trusted: verif/internal/wref (WGSL reference evaluator) and the target interpreter in verif/internal/%s, both written from the specifications and sharing no code with naga; textures, derivatives, subgroup and ray-query operations are outside the executors; constructs hit by an open finding are excluded by tag and counted."
+CHECKS["C01"] = ("differential property-based testing (rapid): WGSL reference evaluator vs SPIR-V interpreter on the emitted binary",
+         "Generated exec-profile compute programs (scalars/vectors/matrices/arrays/structs/pointers, helpers, all statement kinds, builtins, atomics, workgroup memory) x boundary-biased buffer contents x spirv options (version 1.0-1.6, debug, loop bounding, one-call Compile API) are compiled to SPIR-V; an independent SPIR-V interpreter executes the binary (poison for anything SPIR-V leaves undefined, traps on out-of-object access) and every non-padding output byte must equal what an independent WGSL reference evaluator computes. Exploration only: absence of defects is not shown.",
+         EXEC_NOTE % "spv", "DESIGN.md §4 C01")
+CHECKS["C02"] = ("property-based testing (rapid): generated + corpus modules x option sets vs independent SPIR-V structural validator",
+         "Generated exec- and full-profile modules and the 172-file corpus x SPIR-V versions 1.0-1.6 x option sets (debug, ForcePointSize, AdjustCoordinateSpace, ForceLoopBounding, 16-bit IO, bounds-check policies) are compiled; every returned binary is parsed and judged by an independent implementation of the universal SPIR-V rules (header/bound, section order, single definition and dominance, type uniqueness, per-opcode operand kinds and type relations, block termination, structured control flow, entry-point interfaces, Vulkan layout/interface decorations, capabilities and extensions). Exploration only.",
+         "Trusted: verif/internal/spv reader and validator (rules limited to those its author is certain are universal; opcodes outside its operand table are counted as unchecked, never flagged).", "DESIGN.md §4 C02")
+CHECKS["C03"] = ("differential property-based testing (rapid): WGSL reference evaluator vs HLSL front end + interpreter on the emitted text",
+         "Same programs and inputs as C01 x hlsl options (SM 5.1/6.0/6.2/6.6, RestrictIndexing, ForceLoopBounding, explicit BindingMap or FakeMissingBindings); the emitted text must parse and type-check as HLSL and, executed by an independent HLSL interpreter (byte-address Load/Store at the literal offsets, cbuffer packing, row/column conventions, intrinsic definitions), leave the buffers the WGSL reference evaluator computes. Exploration only.",
+         EXEC_NOTE % "ctext (HLSL dialect)", "DESIGN.md §4 C03-C05")
+CHECKS["C04"] = ("differential property-based testing (rapid): WGSL reference evaluator vs MSL (C++14 subset) front end + interpreter on the emitted text",
+         "Same programs and inputs as C01 x msl options (LangVersion 1.2-3.1, index/buffer bounds policies, ForceLoopBounding, auto / fake / explicit per-entry-point binding maps); the emitted text must parse and type-check as MSL and, executed by an independent interpreter (struct layout from Metal's size/alignment table and the explicit padding, packed vectors, array wrappers, references, as_type, metal:: intrinsics, _mslBufferSizes contract), leave the buffers the reference evaluator computes. Exploration only.",
+         EXEC_NOTE % "ctext (MSL dialect)", "DESIGN.md §4 C03-C05")
+CHECKS["C05"] = ("differential property-based testing (rapid): WGSL reference evaluator vs GLSL front end + interpreter on the emitted text",
+         "Same programs and inputs as C01 x glsl options (430/450/460, ES 310/320, binding map or reflection-based binding), one Compile per entry point; the emitted text must be valid GLSL of the requested version and, executed by an independent interpreter (std430/std140 placement, constructor/operator/builtin rules), leave the buffers the reference evaluator computes; executions with integer division by zero or out-of-range float->int conversion are outside the property's domain and discarded (counted). Exploration only.",
+         EXEC_NOTE % "ctext (GLSL dialect)", "DESIGN.md §4 C03-C05")
+CHECKS["C13"] = ("differential + metamorphic property-based testing (rapid): IR interpreter before vs after each pass, strict validator, idempotence",
+         "Generated compute programs with inputs, hand-written control-flow kernels and the corpus x drawn pass sequences (CompactUnused/Constants/Expressions/Types, ReorderTypes, DeduplicateEmits, InlineUserFunctions with drawn policy, and the DXIL pipeline prefixes prepare/+sroa/+mem2reg/+dce through the verif hook): an independent IR interpreter must compute bit-identical buffers before and after (ordinary IR additionally through SPIR-V and the SPIR-V interpreter), the strict IR validator must report nothing new, re-applying the pass must leave the deep hash unchanged, and prepareModule must not touch its argument. Exploration only.",
+         "Trusted: verif/internal/irx interpreter (itself cross-checked against the WGSL reference evaluator on lowered modules), irx.StrictValidate, irx.Hash; hook dxil/verif_export.go only re-exports existing functions.", "DESIGN.md §4 C13")
+CHECKS["C14"] = ("differential property-based testing (rapid): reference evaluator with bound override values vs executed output of every override route",
+         "Generated compute programs with 1-4 overrides (bool/i32/u32/f32, with/without @id, literal or computed defaults over earlier overrides, or none) x value maps (absent, by id, by name, boundary values) x routes (ir.ProcessOverrides on a clone + SPIR-V/HLSL/MSL/GLSL, glsl PipelineConstants, msl PipelineConstants): the route's output is executed and must equal the reference evaluator's result with each override bound to its supplied or default value; a used override without value and default must be an error from every route; complete assignments must not be rejected by resolution; the caller's module hash must be unchanged. Exploration only.",
+         "Trusted: wref const-evaluation of defaults; supplied values are representable in the override's type; override-expressions whose evaluation is an error in WGSL (division by zero, overflow) are outside the domain and discarded; the SPIR-V route is off while finding C01-8 is open.", "DESIGN.md §4 C14")
+CHECKS["C16"] = ("metamorphic property-based testing (rapid): adversarial renamings vs target-language front ends, alpha-equivalence and execution",
+         "(program, injective renaming of user names into an adversarial pool, text backend): the pool holds keywords / reserved words / builtin names of HLSL, MSL-C++14 and GLSL from independent lists, naga helper and temporary patterns, case variants, digit/underscore families, names colliding after sanitisation and non-ASCII identifiers. The renamed program's output must parse and resolve as the target language, declare no reserved spelling, be alpha-equivalent to the baseline output, give the baseline execution result for exec programs, and EntryPointNames must name existing functions. Exploration only.",
+         "Trusted: verif/internal/ctext front ends; keyword tables list only words that are certainly illegal as identifiers; everything is judged relative to the baseline output of the same program.", "DESIGN.md §4 C16")
+CHECKS["C17"] = ("property-based testing (rapid): generated multi-entry-point modules x binding maps vs independent readers of every output",
+         "Generated modules with 1-4 entry points of mixed stages (shared / unshared / aliased resources, IO structs and bare IO, every builtin valid per stage, locations 0-15, interpolation, invariant, workgroup sizes) x drawn binding maps per backend: SPIR-V DescriptorSet/Binding/storage class/Location/BuiltIn/interpolation decorations, execution model/modes and exact interface lists; HLSL registers/spaces/semantics/numthreads and RegisterBindings; MSL argument slots and attributes; GLSL layout qualifiers and the reflection data (Uniforms, TextureMappings, EntryPointNames) are read back by independent parsers and compared with the expectation computed from the generator's own record and the maps; absent entries must error without FakeMissingBindings. Exploration only.",
+         "Trusted: the generator's record of what it wrote; verif/internal/spv reader and the per-backend text scanners in checks/c17.", "DESIGN.md §4 C17")
 PENDING = {}  # filled below
 
 def main():
@@ -77,7 +106,7 @@ def main():
     json.dump(m, open(os.path.join(ROOT, "MANIFEST.json"), "w"), indent=1)
     print("checks:", [c["property_id"] for c in checks])
 
-HOOK_COMMITS = []
+HOOK_COMMITS = ["e7bc752"]
 ENGINES = [
  {"name": "vcheck", "path": "cmd/vcheck", "serves_properties": [], "kind_free_text": "driver: builds checks/<id> against /repo, shards rapid runs, merges evidence"},
  {"name": "wgen", "path": "internal/wgen", "serves_properties": ["C01","C03","C04","C05","C06","C07","C08","C13","C14","C15"], "kind_free_text": "generators of valid-by-construction WGSL (own AST, printer, WGSL layout)"},
